@@ -62,6 +62,7 @@ func c11Gen(tier string, seed int64) []fw.Case {
 		all = append(all, c11Case{Kind: "late-acks", Cause: ca}, c11Case{Kind: "late-acks", Cause: ca, Chunk: 1})
 	}
 	all = append(all, c11Case{Kind: "connect-writefail", Cause: "peerclose"}, c11Case{Kind: "connect-writefail", Cause: "peerclose", Slow: 2})
+	all = append(all, c11Case{Kind: "disconnect-handler-busy", Cause: "deadline"}, c11Case{Kind: "disconnect-from-handler", Cause: "deadline"})
 	for _, ca := range []string{"cancel", "deadline"} {
 		for _, k := range []string{"switch-pub1", "switch-pub2", "switch-sub"} {
 			all = append(all, c11Case{Kind: k, Cause: ca})
@@ -108,6 +109,9 @@ func c11One(k c11Case, rng *rand.Rand) (sig, detail string, trace []string) {
 	}
 	if k.Kind == "connect-writefail" {
 		return c11ConnectWriteFail(k)
+	}
+	if k.Kind == "disconnect-handler-busy" || k.Kind == "disconnect-from-handler" {
+		return c11DisconnectHandler(k)
 	}
 	if strings.HasPrefix(k.Kind, "switch-") {
 		return c11Switch(k, rng)
@@ -987,5 +991,77 @@ func c11ConnectWriteFail(k c11Case) (sig, detail string, trace []string) {
 		time.Sleep(200 * time.Microsecond)
 	}
 	cli.Close()
+	return "", "", nil
+}
+
+// c11DisconnectHandler: Disconnect (100 ms context) while the message handler is busy with an inbound PUBLISH - called
+// from another goroutine, or from inside the handler itself. It returns (at the latest when its context ends); once
+// the handler has returned, Done() closes and the reader goroutine exits.
+func c11DisconnectHandler(k c11Case) (sig, detail string, trace []string) {
+	base := serveGoroutines()
+	tr := memnet.NewTrace()
+	peer := &scen.Script{Tr: tr, AutoConnack: true}
+	cli, conn := scen.NewBase(tr, peer)
+	gate := make(chan struct{})
+	entered := make(chan struct{}, 1)
+	dres := make(chan error, 1)
+	disconnect := func() {
+		dctx, dcancel := context.WithTimeout(context.Background(), 100*time.Millisecond)
+		defer dcancel()
+		cs := tr.Call("Disconnect", k.Kind)
+		err := cli.Disconnect(dctx)
+		tr.Ret(cs, "Disconnect", k.Kind, err)
+		dres <- err
+	}
+	cli.Handle(mqtt.HandlerFunc(func(m *mqtt.Message) {
+		entered <- struct{}{}
+		if k.Kind == "disconnect-from-handler" {
+			disconnect()
+			return
+		}
+		<-gate
+	}))
+	fail := func(s, f string, a ...interface{}) (string, string, []string) {
+		select {
+		case <-gate:
+		default:
+			close(gate)
+		}
+		cli.Close()
+		return s + ":" + k.Kind, k.Kind + ": " + fmt.Sprintf(f, a...), tr.Dump(40)
+	}
+	if err := scen.ConnectBase(cli); err != nil {
+		return "inconclusive", err.Error(), nil
+	}
+	conn.Send(mqttref.EncPublish("c11/in", []byte("x"), 0, false, false, 0), "inbound")
+	select {
+	case <-entered:
+	case <-time.After(scen.Watchdog):
+		return "inconclusive", "handler not entered", nil
+	}
+	if k.Kind == "disconnect-handler-busy" {
+		go disconnect()
+	}
+	select {
+	case <-dres:
+	case <-time.After(scen.Watchdog):
+		return fail("blocked-forever", "Disconnect did not return although its context (100 ms) expired %v ago, while the handler was busy with an inbound message", scen.Watchdog)
+	}
+	close(gate)
+	select {
+	case <-cli.Done():
+	case <-time.After(scen.Watchdog):
+		return fail("done-not-closed", "Disconnect returned and the handler finished, but Done() is not closed")
+	}
+	cli.Close()
+	for i := 0; ; i++ {
+		if serveGoroutines() <= base {
+			break
+		}
+		if i > 2000 {
+			return fail("reader-goroutine-leaked", "%d library reader goroutine(s) still running", serveGoroutines()-base)
+		}
+		time.Sleep(200 * time.Microsecond)
+	}
 	return "", "", nil
 }
